@@ -1182,6 +1182,17 @@ impl<'a> GeneratorState<'a> {
     }
 
     pub fn generate_statement(&mut self, code: &'a StatementLoc<'a>) -> Result<(), Error> {
+        // At the entry of a function nothing is known about the processor flags
+        // (they describe the end of the previously generated function)
+        if let Some(f) = &self.current_function {
+            if let Some(c) = self.functions_code.get(f) {
+                if c.is_empty() {
+                    self.flags = FlagsState::Unknown;
+                    self.carry_flag_ok = false;
+                }
+            }
+        }
+
         // Include C source code into generated asm
         // debug!("{:?}, {}, {}, {}", expr, pos, self.last_included_position, self.last_included_line_number);
         if self.insert_code {
@@ -1209,17 +1220,6 @@ impl<'a> GeneratorState<'a> {
 
         self.acc_in_use = false;
         self.tmp_in_use = false;
-
-        // At the entry of a function nothing is known about the processor flags
-        // (they describe the end of the previously generated function)
-        if let Some(f) = &self.current_function {
-            if let Some(c) = self.functions_code.get(f) {
-                if c.is_empty() {
-                    self.flags = FlagsState::Unknown;
-                    self.carry_flag_ok = false;
-                }
-            }
-        }
 
         if let Some(label) = &code.label {
             self.label(&format!(".{}", label))?;
